@@ -194,9 +194,35 @@ func c03Facts(fs *Facts, s *c02Src) {
 	fs.Tri("truncatesTornTail", tr, w)
 	t, w = c25FlushesAtCountBound(s)
 	fs.Tri("flushesAtCountBound", t, w)
+	t, w = c03LockedClosesWriterFirst(s)
+	fs.Tri("lockedClosesWriterFirst", t, w)
 	t, w = c02ZeroTailIsEOF(s)
 	fs.Tri("zeroTailIsEOF", t, w)
 	c25ReaderAssumptions(fs, s)
+}
+
+// runCompactionLocked closes the chronicler's writer first, whenever one is open (whatever its buffer holds):
+//   `if c.writer != nil && !c.writerClosed { if err := c.writer.Close(); err != nil { return err } c.writerClosed = true c.writer = nil }`
+// as the first statement, in front of NewCompactor.
+func c03LockedClosesWriterFirst(s *c02Src) (Tri, string) {
+	if s.ch == nil {
+		return Unknown, ""
+	}
+	fd := s.ch.Func("chroniclerV2", "runCompactionLocked")
+	if fd == nil || len(fd.Body.List) == 0 {
+		return Unknown, c02Chron
+	}
+	where := c02Where(s.ch, fd)
+	ifs, ok := fd.Body.List[0].(*ast.IfStmt)
+	if !ok || !strings.Contains(s.ch.Str(ifs.Body), "c.writer.Close()") {
+		return Unknown, where
+	}
+	body := s.ch.Str(ifs.Body)
+	if s.ch.Str(ifs.Cond) == "c.writer != nil && !c.writerClosed" && strings.Contains(body, "c.writer = nil") &&
+		strings.Contains(body, "c.writerClosed = true") {
+		return Yes, c02Where(s.ch, ifs)
+	}
+	return Unknown, c02Where(s.ch, ifs)
 }
 
 func init() {
